@@ -333,6 +333,9 @@ func runC07(c *Ctx) {
 					ms.assigned = append(ms.assigned, x)
 					body["uuid"] = x
 					a = hs(x)
+					if x == "" {
+						a = "none" // the handlers treat an empty "uuid" as not given
+					}
 					if n, ok := ms.names[x]; ok {
 						a = hs(n)
 					}
@@ -351,6 +354,9 @@ func runC07(c *Ctx) {
 					ms.assigned = append(ms.assigned, x)
 					body["uuid"] = x
 					a = hs(x)
+					if x == "" {
+						a = "none" // the handlers treat an empty "uuid" as not given
+					}
 					if n, ok := ms.names[x]; ok {
 						a = hs(n)
 					}
